@@ -10,10 +10,12 @@ NOTES = ['float rounding of the weighted sums abstracted: outputs compared to 1e
          'the in-place normalisation of a list kernel cancels in sum(v*k)/sum(k) and is not observable in the output']
 nan = float('nan')
 IMPORTS = 'From Coq Require Import List Arith ZArith QArith Qabs Bool.\nImport ListNotations.\nFrom TL Require Import Model.Filter.\nOpen Scope Q_scope.'
-COMMON = '''Definition close (a b : Q) : bool := Qle_bool (Qabs (a - b)) ((1 # 1000000000) * (1 + Qabs b)).
-Definition cmp (r : option res) (o : val) : bool := match r, o with Some (Val a), Some b => close a b | None, None => true | Some EmptyWin, None => true | _, _ => false end.
+COMMON = '''(* binary64 rounding is relative to the operands, not to a result that may cancel: 1e-9 of the result plus 1e-12 of the largest sample *)
+Definition scale (x : list val) : Q := fold_left (fun m v => match v with Some a => if Qle_bool m (Qabs a) then Qabs a else m | None => m end) x 0.
+Definition close (s a b : Q) : bool := Qle_bool (Qabs (a - b)) ((1 # 1000000000) * (1 + Qabs b) + (1 # 1000000000000) * s).
+Definition cmp (s : Q) (r : option res) (o : val) : bool := match r, o with Some (Val a), Some b => close s a b | None, None => true | Some EmptyWin, None => true | _, _ => false end.
 Definition same (b : bool) (x : list val) (k : list Q) (o : list val) : bool :=
-  forallb (fun i => cmp (filter_out b x k i) (nth i o None)) (seq 0 (length x)) && Nat.eqb (length o) (length x).
+  forallb (fun i => cmp (scale x) (filter_out b x k i) (nth i o None)) (seq 0 (length x)) && Nat.eqb (length o) (length x).
 '''
 
 
@@ -51,9 +53,10 @@ def check_out(xs, k, boundary, out, what):
     n = len(xs); N = len(k); D = N // 2
     if len(out) != n:
         return '%s: output has %d values for %d observations' % (what, len(out), n)
+    sc = max([abs(v) for v in xs if v is not None] or [0])      # binary64 rounding is relative to the operands, not to a result that may cancel
     for i in range(n):
         a, b = out[i], ref[i]
-        if (a is None) != (b is None) or (a is not None and abs(a - b) > 1e-9 * (1 + abs(b))):
+        if (a is None) != (b is None) or (a is not None and abs(a - b) > 1e-9 * (1 + abs(b)) + 1e-12 * sc):
             return '%s: output[%d] = %r, the renormalised weighted mean of the window is %r (input %r, kernel %r, boundary filtered: %r)' % (what, i, a, b, xs, k, boundary)
         if a is not None and (boundary or D <= i < n - D) and all(w >= 0 for w in k):
             win = [xs[p] for p in range(max(0, i - D), min(n, i + D + 1)) if xs[p] is not None]
